@@ -298,7 +298,8 @@ class QuantityMachine(Machine):
                     "how": rng.choice(["quantity", "units"])}
         if r < 0.30:
             b = self._pick(rng, fam)
-            name = rng.choice(["add", "sub", "add", "sub", "mul", "truediv", "eq"])
+            name = rng.choice(["add", "sub", "add", "sub", "mul", "truediv", "eq",
+                               "iadd", "isub", "imul", "itruediv"])
             op = {"op": "bin", "name": name, "a": a, "b": b}
         elif r < 0.38:
             name = rng.choice(["add", "sub", "mul", "truediv", "radd", "rsub", "rmul",
@@ -410,6 +411,27 @@ class QuantityMachine(Machine):
 
     def _gen_c04(self, rng):
         cfg = self.cfg
+        if rng.random() < 0.05:
+            # a quantity that is the root of another: sqrt(x u2), cbrt(x u3), (x u2) ** (1,2)
+            terms = self._rand_terms(rng)
+            if rng.random() < 0.3:
+                # table rows whose factor is a Python int (not a float), with a negative
+                # exponent: integer ** negative-integer is where NumPy and Python differ
+                ints = [s_ for s_ in UM.linear_symbols()
+                        if isinstance(UM.S.UNIT_STANDARD[s_].magnitude, int)]
+                if ints:
+                    terms = [["", rng.choice(sorted(ints)), rng.choice([-1, -1, -2, 1]), 1]]
+            how = rng.choice(["sqrt", "cbrt", "pow_pair", "pow_float"])
+            return {"op": "new_root", "terms": terms, "how": how,
+                    "value": rng.choice([4.0, 9.0, 2.25, 64.0, 1e4])}
+        if len(self.pool) >= 2 and rng.random() < 0.06:
+            # convert into the unit *object* of another member of the same dimension
+            a = rng.randrange(len(self.pool))
+            la = self.pool[a]["led"]
+            same = [i for i, e in enumerate(self.pool) if i != a and e["led"] is not None
+                    and la is not None and tuple(e["led"]["dims"]) == tuple(la["dims"])]
+            if same:
+                return {"op": "conv_to_member", "a": a, "b": rng.choice(same)}
         if self.pool and rng.random() < 0.06:
             # derived objects that share state with a pool member are rebased or converted in
             # place; the member's own conversions must not notice
@@ -594,8 +616,18 @@ class QuantityMachine(Machine):
                 if kind == "bin":
                     a, b = self._slot(op["a"])["q"], self._slot(op["b"])["q"]
                     what = "bin:" + op["name"]
+                    def aug(fn):
+                        # 't = a; t += b': a second name for the operand, then the augmented
+                        # form; the operand itself must keep its value
+                        t = a
+                        t = fn(t, b)
+                        return t
+                    import operator as _op
                     result = {"add": lambda: a + b, "sub": lambda: a - b, "mul": lambda: a * b,
-                              "truediv": lambda: a / b, "eq": lambda: a == b}[op["name"]]()
+                              "truediv": lambda: a / b, "eq": lambda: a == b,
+                              "iadd": lambda: aug(_op.iadd), "isub": lambda: aug(_op.isub),
+                              "imul": lambda: aug(_op.imul),
+                              "itruediv": lambda: aug(_op.itruediv)}[op["name"]]()
                 elif kind == "num":
                     a, x = self._slot(op["a"])["q"], op["x"]
                     what = "num:" + op["name"]
@@ -647,7 +679,20 @@ class QuantityMachine(Machine):
                     if name == "value":
                         a.value()
                     elif name == "value_unit":
-                        a.value(op["unit"])
+                        got = a.value(op["unit"])
+                        if isinstance(got, np.ndarray) and got.size and op["unit"]:
+                            # the caller owns what a query returns: scribbling over it must
+                            # not show up in the quantity or in the next query
+                            keep = got.copy()
+                            got[...] = -7.25
+                            again = a.value(op["unit"])
+                            if not (isinstance(again, np.ndarray) and
+                                    np.array_equal(again, keep, equal_nan=True)):
+                                raise Violation(
+                                    "query_result_shared_with_quantity",
+                                    {"unit": op["unit"], "first": np.array2string(keep),
+                                     "after_caller_changed_it": np.array2string(np.asarray(again))},
+                                    signature="C07/query_result_alias")
                     elif name == "value_dtype":
                         # a query whose type cast may fail after the conversion succeeded
                         dt = {"float": float, "int": int, "str-int": "int",
@@ -684,6 +729,8 @@ class QuantityMachine(Machine):
                     self.pool[target]["fam"] = self.pool[target]["fam"]
                 else:
                     return "skip", None
+            except Violation:
+                raise
             except Exception as e:
                 outcome = "raised:" + type(e).__name__
         # the oracle: every member except the in-place target reports what it did before
@@ -718,7 +765,8 @@ class QuantityMachine(Machine):
         if isinstance(result, Quantity):
             fam = None
             if kind in ("neg", "getitem", "new_from") or (kind in ("bin", "num") and
-                                              op["name"] in ("add", "sub", "radd", "rsub")):
+                                              op["name"] in ("add", "sub", "radd", "rsub",
+                                                             "iadd", "isub")):
                 fam = self._slot(op["a"])["fam"]
             elif kind == "np" and op["name"] in ("abs", "absolute", "round", "floor", "ceil",
                                                  "sum", "linspace", "logspace", "negative"):
@@ -798,6 +846,73 @@ class QuantityMachine(Machine):
             return "new", text
         if kind == "custom_scope":
             return self._apply_custom_scope(op)
+        if kind == "new_root":
+            terms = [list(t) for t in op["terms"]]
+            n = 3 if op["how"] == "cbrt" else 2
+            up = [[p_, s_, num * n, den] for p_, s_, num, den in terms]
+            f = UM.factor(terms)
+            if not terms or not (1e-100 < f < 1e100) or not (1e-200 < UM.factor(up) < 1e200):
+                return "skip_range", None
+            if op["how"] == "pow_float" and any(den != 1 for _, _, _, den in terms):
+                # how a float exponent acts on a fractional unit exponent is C06's matter
+                return "skip_float_power", None
+            x = float(op["value"])
+            try:
+                with np.errstate(all="ignore"):
+                    big = Quantity(x, UM.text(up, 0))
+                    if op["how"] == "sqrt":
+                        q = np.sqrt(big)
+                    elif op["how"] == "cbrt":
+                        q = np.cbrt(big)
+                    elif op["how"] == "pow_pair":
+                        q = big ** (1, 2)
+                    else:
+                        q = big ** 0.5
+            except Exception as e:
+                raise Violation("root_of_a_linear_quantity_failed",
+                                {"unit": UM.text(up, 0), "how": op["how"],
+                                 "error": [type(e).__name__, repr(e.args)[:200]]},
+                                signature="C04/root/failed")
+            root = x ** (1.0 / n)
+            led = {"B": root * f, "dims": UM.dims(terms), "terms": terms, "origin": terms,
+                   "chain": 0, "text": UM.text(terms, 0), "x0": root}
+            self._add(q, None, led)
+            return "new_root", [op["how"], led["text"]]
+        if kind == "conv_to_member":
+            if len(self.pool) < 2:
+                return "skip", None
+            ea, eb = self._slot(op["a"]), self._slot(op["b"])
+            la, lb = ea["led"], eb["led"]
+            if ea is eb or la is None or lb is None or tuple(la["dims"]) != tuple(lb["dims"]) \
+                    or la["chain"] >= self.cfg["max_chain"]:
+                return "skip", None
+            fv = UM.factor(lb["terms"])
+            want = la["B"] / fv
+            if not np.all(np.isfinite(want)) or np.any(
+                    (np.abs(want) > 1e290) | ((np.abs(want) < 1e-290) & (want != 0))):
+                return "skip_range", None
+            before_b = snap(eb["q"])
+            try:
+                with np.errstate(all="ignore"):
+                    ea["q"].to(eb["q"].baseunits)
+                    got = ea["q"].value()
+            except Exception as ex:
+                raise Violation("same_dimension_conversion_refused",
+                                {"from": la["text"], "to": lb["text"] + " (unit object of another "
+                                 "quantity)", "error": [type(ex).__name__, repr(ex.args)[:200]]},
+                                signature="C04/accept_missing/to_member")
+            n = la["chain"] + 1
+            if not self._close(got, want, n * 1e-12):
+                raise Violation("converted_value_wrong",
+                                {"from": la["text"], "to": lb["text"], "how": "to(member units)",
+                                 "got": safe_repr(got), "want": safe_repr(want)},
+                                signature="C04/value/to_member")
+            if not same_snap(before_b, snap(eb["q"])):
+                raise Violation("unit_donor_changed", {"donor": lb["text"]},
+                                signature="C04/to_member/donor_changed")
+            la.update(terms=[list(t) for t in lb["terms"]], text=lb["text"], chain=n)
+            self.nontrivial = True
+            return "to_member_ok", [la["text"], n]
         if kind == "acc_poke":
             try:
                 getattr(self.acc, op["sym"]).to(op["to"])
